@@ -1,6 +1,7 @@
 """C05 Reference counts / GC — structural clause: edge linearity (E-LIN)."""
 import ecount
 import eptr
+import eidx
 import eswap
 import ewho
 import witness
@@ -112,6 +113,11 @@ def run(ctx):
                 "bits: retagging changes only the tag, untagging clears exactly the tag bits, is_inner reads the bit above them.")
     npt = eptr.run(ctx, F)
     ctx.floor("E-PTR.tagbits", "interpreted mask / accessor situations", npt, 11)
+    ctx.explain("E-IDX.tagbits: the same for the index-based manager's 32 bit edges (tag in the most significant bits): "
+                "TAG_BITS / TAG_SHIFT / TAG_MASK and node_id / is_tagged / with_tag / with_tag_owned / tag / raw are interpreted "
+                "for a one-bit tag and for no tag.")
+    nit = eidx.run(ctx, F)
+    ctx.floor("E-IDX.tagbits", "interpreted constant / accessor situations", nit, 18)
     ctx.explain("E-FREELIST.sentinel: every constant that meets a free-list head (Cell::set / replace, pop().unwrap_or, comparisons) is "
                 "the end-of-list marker 0. E-FREELIST.countsign: the shared node count receives deltas by addition; subtractions are "
                 "`-= 1` only.")
